@@ -418,7 +418,12 @@ func (e *Env) getVersionShape(gv *types.Func) {
 			}
 		}
 	}
-	if sp == nil || len(sp.Args) != 2 || sp.Args[0].Op != ir.OParam || !isStringConst(sp.Args[1], ":") {
+	if sp == nil {
+		// another tokeniser (strings.Cut, an index scan, ...): whether it accepts exactly "CVSS:<label>" is not decided here
+		c.Undecided("version-prefix", who, e.P.Pos(gv.Pos()), `the prefix is not split with strings.Split(<parameter>, ":"); the rule knows no equivalence for the tokeniser used`)
+		return
+	}
+	if len(sp.Args) != 2 || sp.Args[0].Op != ir.OParam || !isStringConst(sp.Args[1], ":") {
 		c.Fail("version-prefix", who, e.P.Pos(gv.Pos()), `the prefix is not split as strings.Split(<parameter>, ":")`)
 		return
 	}
@@ -430,7 +435,7 @@ func (e *Env) getVersionShape(gv *types.Func) {
 		if len(lf.Ret) != 2 {
 			continue
 		}
-		cons := fmt.Sprintf("%s path returning at %s", who, e.P.Pos(lf.Pos))
+		cons := e.pathName(who, lf)
 		if isNilConst(lf.Ret[1]) {
 			nAcc++
 			okLen := hasGuard(lf, gLen)
